@@ -46,6 +46,9 @@ CHECKS = {
  "C15": ("E1-history-bfs", "exhaustive fault enumeration: every (item sequence, source, adapter chain, drop sets, consumer, fault position) pipeline of the bounded space is executed on the real code and compared with a list model",
          "All pipelines of <= 3/4 items x 4 sources x 40+16 adapter chains (every word of length <= 3 over filter/map/filter_map, and to_quads variants) x drop sets x 12 consumers x every single source-fault and sink-fault position (and their combinations) are run; the consumer must see exactly the filtered prefix before the fault, in order, the error must be attributed to the right side with the injected payload, counts must be right and the source must not be pulled after the fault.",
          "Bounded item count and chain depth; parser read-ahead is not observed.", "DESIGN.md §4 C15"),
+ "C16": ("E5-crash-attributing-pool", "exhaustive enumeration of the operation x build profile (dev, release) x size ladder, every case run in a child process on a 2 MiB thread; oracle: stack high-water marks (painted stack) at two sizes must not differ, and the largest sizes must complete or fail with an error value",
+         "For each of 291 operations (every constant/non-constant pattern shape in every in-memory store, escapes, SPARQL forms, serializers x statement shapes, parsers, mutations, c14n, isomorphism) and both profiles, the stack high-water mark does not grow between two input sizes; in the thorough tier the operation also completes at 20 000, 100 000 and 1 000 000 elements on a 2 MiB stack (time-capped cases listed).",
+         "Stack depth is monotone in input size; inputs are built outside the measured thread; dev profile = opt-level 0 for every crate.", "DESIGN.md §4 C16"),
  "C17": ("E4-word-enumerator", "exhaustive enumeration of all ordered (base, IRI) pairs of a generated IRI set x all parent-step limits, each answer resolved back through the real resolver",
          "Every ordered pair of a structured IRI universe (authority/no authority, rooted/rootless/empty paths, empty and dot segments, ':' in segments, multi-byte characters, queries and fragments containing '/' and '?') is relativised under 5 parent-step limits; every returned reference is validated, resolved back and its parent steps counted; None is rejected only where the property promises a reference.",
          "Small-scope hypothesis (<= 2/3 path segments over an 8-segment alphabet); inverse taken w.r.t. the toolkit's resolver.", "DESIGN.md §4 C17"),
